@@ -82,6 +82,16 @@ def scan_items(toks, lo, hi):
                 or (toks[i].text == "extern" and toks[i + 1].kind == "str" and toks[i + 2].text == "fn"):
             i += 2 if toks[i].text == "extern" else 1
         kw = toks[i].text
+        if kw not in ITEM_KW and toks[i].kind == "id" and i + 2 < hi and toks[i + 1].text == "!" and toks[i + 2].text in OPEN:
+            # item-position macro invocation `m!(...);` : recorded as an item of kind "macro_call" (never selected directly)
+            end = match_close(toks, i + 2) + 1
+            if end < hi and toks[end].text == ";":
+                end += 1
+            it = Item(toks, start, end, "macro_call", kw, attrs, None)
+            it.kw_index = i
+            items.append(it)
+            i = end
+            continue
         if kw not in ITEM_KW:
             raise ExtractError("cannot parse item at %s:%d (token %r)" % (toks[i].src, toks[i].line, kw))
         kw_i = i
@@ -211,6 +221,48 @@ def extract_file(repo, relpath, selects):
                     raise ExtractError("%s has no body to descend into" % step)
                 scope = scan_items(toks, it.body_open + 1, match_close(toks, it.body_open))
         only, exc = sel.get("only"), sel.get("except", [])
+        if it.kw == "macro_rules" and sel.get("expand") is not None:
+            # R17: a single-arm `macro_rules! m { ($p:ident) => { ITEMS }; }` is expanded for one invocation `m!(Arg);`
+            # by substituting `$p` with the argument, token for token; `only` selects among the expanded items
+            arg = sel["expand"]
+            o = it.kw_index + 3                         # the brace/paren that opens the macro definition
+            c = match_close(toks, o)
+            pat_o = o + 1
+            if toks[pat_o].text != "(":
+                raise ExtractError("R17: unsupported macro shape %s" % it.name)
+            pat_c = match_close(toks, pat_o)
+            pat = toks[pat_o + 1:pat_c]
+            if not (len(pat) == 4 and pat[0].text == "$" and pat[2].text == ":" and pat[3].text == "ident"):
+                raise ExtractError("R17: only `($x:ident)` macros are expanded (%s)" % it.name)
+            if toks[pat_c + 1].text != "=>" or toks[pat_c + 2].text not in OPEN:
+                raise ExtractError("R17: unsupported macro arm %s" % it.name)
+            b_o = pat_c + 2
+            b_c = match_close(toks, b_o)
+            rest = [t for t in toks[b_c + 1:c] if t.text != ";"]
+            if rest:
+                raise ExtractError("R17: macro %s has more than one arm" % it.name)
+            # the invocation must exist at top level: `name ! ( Arg ) ;`
+            found = any(toks[k].text == it.name and toks[k + 1].text == "!" and toks[k + 2].text == "(" and toks[k + 3].text == arg and toks[k + 4].text == ")"
+                        for k in range(len(toks) - 4))
+            if not found:
+                raise ExtractError("R17: no invocation %s!(%s) in %s" % (it.name, arg, relpath))
+            pname = pat[1].text
+            body = []
+            k = b_o + 1
+            while k < b_c:
+                t = toks[k]
+                if t.text == "$" and toks[k + 1].text == pname:
+                    body.append(toks[k + 1].clone(text=arg, ws=t.ws)); k += 2
+                    continue
+                if t.text == "$":
+                    raise ExtractError("R17: unsupported macro metavariable in %s" % it.name)
+                body.append(t); k += 1
+            members = scan_items(body, 0, len(body))
+            keep = [_find(members, o_) for o_ in only] if only is not None else [m_ for m_ in members if cfg_enabled(m_.attrs)]
+            for mbr in keep:
+                pieces.append(Piece(relpath, "%s!(%s) / %s" % (it.name, arg, mbr.label), list(body[mbr.start:mbr.end]),
+                                    body[mbr.start].line, body[mbr.end - 1].line))
+            continue
         if it.kw in ("impl", "mod", "trait") and (only is not None or exc or it.kw == "mod"):
             members = scan_items(toks, it.body_open + 1, match_close(toks, it.body_open))
             keep = []
